@@ -152,6 +152,9 @@ pub fn check_vector(v: &Value) -> Result<Vec<Finding>, String> {
                 }
             },
             (other, _) => {
+                if outcome == "lossy" {
+                    out.push(Finding { stage: "malformed-frame", field: "decode".into(), detail: format!("the encoder's own frame does not decode: {:?}", other) });
+                }
                 if outcome == "ok" {
                     out.push(Finding { stage: "malformed-frame", field: "decode".into(), detail: format!("the encoder's own frame does not decode: {:?}", other) });
                     // ... which is also a lost packet on the encode -> decode path (C01)
@@ -160,7 +163,7 @@ pub fn check_vector(v: &Value) -> Result<Vec<Finding>, String> {
             },
         }
         // C02 typed -> bytes
-        if outcome != "refused" && *b != spec_bytes {
+        if outcome != "refused" && outcome != "lossy" && *b != spec_bytes {
             out.push(Finding { stage: "layout-encode", field: first_byte_diff(&spec_bytes, b), detail: format!("specification {:?} code {:?}", spec_bytes, b) });
         }
         // C02 "byte 2 of every frame is the request id": the request id setter changes that byte and nothing else
